@@ -113,6 +113,36 @@ M = [
     ("info-alpha-map", "pixman/pixman-image.c", "compute_image_info", "image->type != BITS)", "image->type == BITS)", 0),
     ("info-final-clear", "pixman/pixman-image.c", "compute_image_info", "flags &= ~(FAST_PATH_IS_OPAQUE | FAST_PATH_SAMPLES_OPAQUE);", "flags &= ~(FAST_PATH_IS_OPAQUE);", 0),
     ("info-field-type", "pixman/pixman-private.h", None, "pixman_repeat_t             repeat;", "int                         repeat;", 0),
+    # ---- pixman.c: compute_transformed_extents, analyze_extent
+    ("cte-half", "pixman/pixman.c", "compute_transformed_extents", "pixman_int_to_fixed (extents->x2) - pixman_fixed_1 / 2", "pixman_int_to_fixed (extents->x2) + pixman_fixed_1 / 2", 0),
+    ("cte-corner", "pixman/pixman.c", "compute_transformed_extents", "(i & 0x02)? y1 : y2", "(i & 0x02)? y2 : y1", 0),
+    ("cte-min", "pixman/pixman.c", "compute_transformed_extents", "if (ty < ty1)", "if (ty <= ty1)", 0),
+    ("cte-max", "pixman/pixman.c", "compute_transformed_extents", "if (tx > tx2)\n\t    tx2 = tx;", "if (tx > tx2)\n\t    tx2 = ty;", 0),
+    ("cte-count", "pixman/pixman.c", "compute_transformed_extents", "i < 4", "i < 3", 0),
+    ("cte-init", "pixman/pixman.c", "compute_transformed_extents", "tx2 = ty2 = INT64_MIN", "tx2 = ty2 = INT64_MAX", 0),
+    ("ae-16bit", "pixman/pixman.c", "analyze_extent", "!IS_16BIT (extents->x2 + 1)", "!IS_16BIT (extents->x2)", 0),
+    ("ae-maxsize", "pixman/pixman.c", "analyze_extent", "image->bits.width >= 0x7fff", "image->bits.width > 0x7fff", 0),
+    ("ae-empty", "pixman/pixman.c", "analyze_extent", "image->common.repeat != PIXMAN_REPEAT_NONE)\n\t    return FALSE;", "image->common.repeat == PIXMAN_REPEAT_NONE)\n\t    return FALSE;", 0),
+    ("ae-id-cover", "pixman/pixman.c", "analyze_extent", "extents->x2 <= image->bits.width &&", "extents->x2 < image->bits.width &&", 0),
+    ("ae-id-flag", "pixman/pixman.c", "analyze_extent", "*flags |= FAST_PATH_SAMPLES_COVER_CLIP_NEAREST;\n\t    return TRUE;", "*flags |= FAST_PATH_SAMPLES_COVER_CLIP_BILINEAR;\n\t    return TRUE;", 0),
+    ("ae-conv-off", "pixman/pixman.c", "analyze_extent", "((params[0] - pixman_fixed_1) >> 1)", "((params[0] + pixman_fixed_1) >> 1)", 0),
+    ("ae-bilinear-w", "pixman/pixman.c", "analyze_extent", "width = pixman_fixed_1;", "width = pixman_fixed_1 / 2;", 0),
+    ("ae-nearest-off", "pixman/pixman.c", "analyze_extent", "x_off = - pixman_fixed_e;", "x_off = 0;", 0),
+    ("ae-filter-case", "pixman/pixman.c", "analyze_extent", "case PIXMAN_FILTER_BEST:", "case PIXMAN_FILTER_BEST + 20:", 0),
+    ("ae-cover-nearest", "pixman/pixman.c", "analyze_extent", "pixman_fixed_to_int (transformed.x2 - pixman_fixed_e) < image->bits.width", "pixman_fixed_to_int (transformed.x2 - pixman_fixed_e) <= image->bits.width", 0),
+    ("ae-cover-bilinear", "pixman/pixman.c", "analyze_extent", "pixman_fixed_to_int (transformed.y1 - pixman_fixed_1 / 2) >= 0", "pixman_fixed_to_int (transformed.y1 - pixman_fixed_1 / 2) > 0", 0),
+    ("ae-expand", "pixman/pixman.c", "analyze_extent", "exp_extents.y2 += 1;", "exp_extents.y2 += 2;", 0),
+    ("ae-range", "pixman/pixman.c", "analyze_extent", "transformed.x2 + x_off + 8 * pixman_fixed_e + width", "transformed.x2 + x_off + 8 * pixman_fixed_e", 0),
+    ("ae-second-call", "pixman/pixman.c", "analyze_extent", "(transform, &exp_extents, &transformed)", "(transform, extents, &transformed)", 0),
+    # ---- pixman-glyph.c: counter tests
+    ("glyph-thaw-zero", "pixman/pixman-glyph.c", "pixman_glyph_cache_thaw", "--cache->freeze_count == 0", "--cache->freeze_count <= 0", 0),
+    ("glyph-thaw-high", "pixman/pixman-glyph.c", "pixman_glyph_cache_thaw", "cache->n_tombstones > N_GLYPHS_HIGH_WATER)\n    {", "cache->n_tombstones >= N_GLYPHS_HIGH_WATER)\n    {", 0),
+    ("glyph-thaw-dump", "pixman/pixman-glyph.c", "pixman_glyph_cache_thaw", "if (cache->n_tombstones > N_GLYPHS_HIGH_WATER)", "if (cache->n_glyphs > N_GLYPHS_HIGH_WATER)", 0),
+    ("glyph-thaw-low", "pixman/pixman-glyph.c", "pixman_glyph_cache_thaw", "cache->n_glyphs > N_GLYPHS_LOW_WATER", "cache->n_glyphs >= N_GLYPHS_LOW_WATER", 0),
+    ("glyph-insert-frozen", "pixman/pixman-glyph.c", "pixman_glyph_cache_insert", "cache->freeze_count > 0", "cache->freeze_count >= 0", 0),
+    ("glyph-insert-full", "pixman/pixman-glyph.c", "pixman_glyph_cache_insert", ">= HASH_SIZE - 1)", ">= HASH_SIZE)", 0),
+    ("glyph-macro-high", "pixman/pixman-glyph.c", None, "#define N_GLYPHS_HIGH_WATER  (16384)", "#define N_GLYPHS_HIGH_WATER  (16385)", 0),
+    ("glyph-new-test", "pixman/pixman-glyph.c", "pixman_glyph_cache_thaw", "    if (--cache->freeze_count", "    if (!cache) return;\n    if (--cache->freeze_count", 0),
     # ---- fail closed: constructs outside the accepted subset
     ("unsupported-goto", "pixman/pixman-matrix.c", "fixed_112_16_to_fixed_48_16", "*clampflag = TRUE;", "*clampflag = TRUE; goto out;", 0),
     ("unsupported-loop", "pixman/pixman-trap.c", "pixman_edge_step", "e->x += n * e->stepx;", "while (n > 3) n--; e->x += n * e->stepx;", 0),
